@@ -258,7 +258,9 @@ func httpGunFields() []field {
 		fb("shared-client.enabled", "SharedClient.Enabled", true),
 		fi("shared-client.client-number", "SharedClient.ClientNumber", 3, 3),
 		{Key: "target", Lit: "127.0.0.1:8080", Text: "127.0.0.1:8080", GoPath: "Target", Want: "127.0.0.1:8080", Wrong: wrongStr,
-			Bad: []any{"", "no-port", "host:99999", "host:port:extra", "http://host:80"}},
+			// "host:port" or ":port" with a port number 1…65535
+			Bad: []any{"", "no-port", "host:99999", "host:port:extra", "http://host:80", "host:", "[::1]:", "127.0.0.1:0", ":0", "host:00",
+				"host:http", "host:65536", "host:-1", "host: 80"}},
 	}
 }
 
